@@ -653,6 +653,17 @@ def c15(tier, replay_file=None):
                                                                     {"from": ["A", k["name"]] if k["name"] != "A" else ["B", "A"], "to": [], "repeat": {"kind": "Normal"}, "absorbing": ["A" if k["name"] != "A" else "B"]},
                                                                     # ... and the key itself in the absorbing list (every position a key name is written in)
                                                                     {"from": [k["name"], "C"] if k["name"] != "C" else ["C", "D"], "to": ["E"], "repeat": {"kind": "Disabled"}, "absorbing": [k["name"]]}]})
+            # large layouts: a saved file is the converted, pretty-printed form and can be a hundred times the size of its source (super-dvorak: 4 KB -> 70 KB);
+            # one mapping per key and modifier (about 200 KB, 400 KB and 1.3 MB saved), and a source program whose expansion is that large
+            mods = [[], ["LEFTSHIFT"], ["LEFTCTRL"], ["LEFTALT"], ["RIGHTALT"], ["LEFTMETA"], ["RIGHTSHIFT"], ["RIGHTCTRL"], ["LEFTCTRL", "LEFTSHIFT"], ["LEFTCTRL", "LEFTALT"]]
+            knames = [k["name"] for k in keys if k["name"] not in ("LEFTSHIFT", "LEFTCTRL", "LEFTALT", "RIGHTALT", "LEFTMETA", "RIGHTSHIFT", "RIGHTCTRL")]
+            for nm, nmods in (("big-3", 3), ("big-6", 6), ("big-10", 10)):
+                cases.append({"id": nm, "layout": [{"from": m + [k], "to": m[:1] + [k], "repeat": {"kind": "Normal"} if i % 3 else {"kind": "Special", "keys": [k], "delay": 180, "interval": 30},
+                                                    "absorbing": m[:1] if i % 2 else []} for i, k in enumerate(knames) for m in mods[:nmods]]})
+            cases.append({"id": "big-prog", "fancy": {"mappings": [{"from": "F%d" % i, "to": "@layer"} for i in range(13, 25)] +
+                                                       [{"from": ["@layer", {"row": r}], "to": ["LEFTCTRL", {"letters": letters}],
+                                                         "repeat": {"Special": {"keys": ["LEFTALT", {"letters": letters}], "delay_ms": 200, "interval_ms": 40}}, "absorbing": "@layer"}
+                                                        for r, letters in (("1", "1234567890-="), ("Q", "qwertyuiop[]"), ("A", "asdfghjkl;'"), ("Z", "zxcvbnm,./"))]}})
             # every converted layout of the C13 family, the built-ins and the README examples: what the converter really produces
             fpath, g2 = generate_fancy(wd, 1 if tier == "quick" else 2, out="fancy.ndjson")
             nf = 0
